@@ -70,18 +70,80 @@ class FitterFit(Contract):
 
 
 @contract
+class ModelsRead(Contract):
+    name = MODELS + '.read'
+    trusted = ('assumed at the call site in Fitter.__init__ (dispatch on the package version through parfile.read, file I/O); '
+               'the two readers it dispatches to, _read_version_1/2, are under contract separately (C02)')
+
+    def result(self, c, a):
+        m = getattr(c.interp, 'package_models', None)
+        return m if m is not None else make_models(c, '2d')
+
+
+@contract
 class FitterInit(Contract):
-    """ASSUMED (file I/O: Models.read): the constructor yields a fitter whose settings are the ones passed."""
+    """Fitter.__init__: one filter description per (name, aperture) pair, in order, with the aperture in arcsec and,
+    after reading the models, the model wavelength of that filter; the models are read ONCE with exactly the
+    arguments given; the extinction pattern is get_av of the model wavelengths; the distance pattern is -2 for every
+    filter (flux ~ d^-2 in log space); settings stored as given."""
     name = FITTER + '.__init__'
-    trusted = 'assumed (I/O); its parts are under contract separately: Extinction.get_av, Models.read regions (bounded)'
+    properties = ('C01', 'C10')
+    variants = ('two_filters',)
+    modifies = ('self',)
+    assume_pre_of = ('sedfitter.extinction.extinction.Extinction.get_av',)
+
+    def setup(self, c, variant):
+        from .extinction import make_extinction, CHI_CGS
+        from sedvc import units
+        U = units.BASE
+        self.models = make_models(c, '2d')
+        c.assume(compare('==', c.A(c.attr(self.models, '_wavelengths').value).n, 2))
+        c.interp.package_models = self.models
+        self.ap = c.array('apertures', (2,))
+        law = make_extinction(c, U['micron'], CHI_CGS)
+        self.dr = Quantity(c.array('distance_range', (2,)), U['kpc'])
+        return dict(self=c.obj(FITTER), filter_names=c.list(['F0', 'F1']), apertures=Quantity(self.ap, U['arcsec']), model_dir='models_dir',
+                    extinction_law=law, av_range=(c.real('av_lo'), c.real('av_hi')), distance_range=self.dr, remove_resolved=False, use_memmap=False)
 
     def havoc(self, c, a):
+        # at call sites (fit()): the fields of the new fitter
         ft = make_fitter(c)
         for k, v in c.st.heap[ft.addr].attrs.items():
             c.set_attr(a.self, k, v)
         c.set_attr(a.self, 'av_range', a.av_range)
         c.set_attr(a.self, 'model_dir', a.model_dir)
         c.set_attr(a.self, 'extinction_law', a.extinction_law)
+
+    def ensures(self, c, a, result, old):
+        if c.mode != 'verify':
+            return {}
+        from sedvc.values import ListRef, DictRef
+        ev = c.st.events
+        reads = [e for e in ev if e[0] == 'call' and e[1] == MODELS + '.read']
+        avs = [e for e in ev if e[0] == 'call' and e[1].endswith('Extinction.get_av')]
+        av_rets = [e for e in ev if e[0] == 'ret' and e[1].endswith('Extinction.get_av')]
+        fl = c.attr(a.self, 'filters')
+        items = c.st.heap[fl.addr].items if isinstance(fl, ListRef) else []
+        out = {'one_filter_description_per_filter': len(items) == 2 and all(isinstance(x, DictRef) for x in items)}
+        if not out['one_filter_description_per_filter']:
+            return out
+        AP = c.A(self.ap)
+        wl = c.attr(self.models, '_wavelengths')
+        WL = c.A(wl)
+        for i, d in enumerate(items):
+            di = c.st.heap[d.addr].items
+            out['filter_%d_name_aperture_wavelength' % i] = [di.get('name') == 'F%d' % i, compare('==', di.get('aperture_arcsec'), AP[i]),
+                                                           isinstance(di.get('wav'), Quantity) and compare('==', di['wav'].value * di['wav'].unit.scale, WL[i] * wl.unit.scale)]
+        out['models_read_once_with_the_given_arguments'] = (len(reads) == 1 and reads[0][2].get('directory') == 'models_dir' and getattr(reads[0][2].get('filters'), 'addr', 0) == fl.addr
+                                                            and reads[0][2].get('distance_range') is a.distance_range and reads[0][2].get('remove_resolved') is False
+                                                            and reads[0][2].get('use_memmap') is False and getattr(c.attr(a.self, 'models'), 'addr', 0) == self.models.addr)
+        out['extinction_pattern_is_get_av_of_the_model_wavelengths'] = (len(avs) == 1 and len(av_rets) == 1 and avs[0][2]['self'].addr == a.extinction_law.addr
+                                                                         and avs[0][2]['wav'] is wl and c.attr(a.self, 'av_law') is av_rets[0][2])
+        sc = c.A(c.attr(a.self, 'sc_law'))
+        av = c.A(c.attr(a.self, 'av_law'))
+        out['distance_pattern_is_minus_two'] = [compare('==', sc.n, av.n), c.forall(sc.n, lambda j: sc[j] == -2, 'sc_law')]
+        out['settings_stored'] = c.attr(a.self, 'model_dir') == 'models_dir' and (lambda r: isinstance(r, tuple) and len(r) == 2 and r[0] is a.av_range[0] and r[1] is a.av_range[1])(c.attr(a.self, 'av_range')) and c.attr(a.self, 'extinction_law').addr == a.extinction_law.addr
+        return out
 
 
 @contract
